@@ -57,6 +57,38 @@ check("C12", "exploration",
       "LWW timestamps are wall-clock: updates are serialised with a strictly advancing clock, a backwards clock step makes the run inconclusive. AWORSet's associativity/convergence/read anomalies are a design limitation recorded as known findings keyed by cause 'design'; the same laws broken by an implementation deviation carry a different key and are reported.",
       "runtime monitoring: algebraic-law and reference-model oracles over generated CRDT histories", "direct")
 
+
+check("C04", "exploration",
+      "Random call-graph programs (1-4 procedures, value/ref parameters, locals with initialisers, self and mutual recursion to depth 6, tail calls, ref chains, aborts injected before and after Call/Return/TailCall ran) are compiled to jump/proc tables following the code generator's conventions and run under the real MPCalContext; a reference interpreter of PlusCal call/return semantics runs in lock-step (H1 hooks) and compares .pc, stack depth, every saved frame and every procedure/archetype variable after every commit and before every attempt; a sample of programs is calibrated against the real pcal translator + TLC. The shipped ProcedureSpaghetti tables run with all six process shapes.",
+      "Programs are sampled, not exhausted. For tail calls into a different procedure the statement (return, then call) is followed, which differs from pcal's own translation; the calibration uses the matching switch.",
+      "runtime monitoring: lock-step reference interpreter over generated programs at commit/abort hooks, calibrated by pcal+TLC", "direct+tlc")
+
+check("C05", "exploration",
+      "Generated values (nested to depth 4, printable-ASCII strings) are built into real tla.Values in ~20 different ways and orders, in two child processes (vector clocks off / on via PGO_TRACE_DIR); oracles: Equal is an equivalence agreeing with an independent canonical form, equal implies equal Hash, set/function/hashmap/immutable-map lookups agree with Equal (crafted collisions), gob round-trips in the four shapes the runtime uses (incl. causal wrappers at any depth, VClock, CRDT wire states) yield Equal values, String() parses back (own parser, calibrated by TLC) to the value.",
+      "Sequences and functions are distinct kinds in this runtime (the fragment's documented restriction), so the Equal oracle uses a kind-distinguishing canonical form; the print oracle uses the mathematical one. TLC is used only to calibrate the parser on TLC-comparable values.",
+      "runtime monitoring: algebraic-law oracles against an independent canonical form over generated values; child processes; TLC-calibrated printer parser", "direct+tlc")
+
+check("C13", "exploration",
+      "2-4 real NewCRDT instances (GCounter, AWORSet) on 127.0.0.1 with 1-5 ms tickers, driven through real MPCalContexts (hand-built archetypes and the shipped gcounter/shopcart archetypes); a harness gate holds every writing section open until at least one tick and one incoming merge were counted (H5), then commits or aborts by seed; an offline oracle over counted events checks: broadcast payloads and replies contain nothing in flight or aborted, knowledge monotonicity across aborts, a committed update is dispatched to every connected peer within 3 sender ticks, nothing received stays unmerged, quiescent convergence. -race batches with counter-only hooks.",
+      "'Eventually' is restated over counted ticks/broadcasts/merges, never wall-clock. Peers are 'connected' per update (a send timeout excludes that peer for that update only).",
+      "runtime monitoring: offline trace-specification checker over hook events (H5) of real CRDT resources + race detector", "direct")
+
+check("C14", "exploration",
+      "The shipped pbkvs archetypes run one attempt at a time over harness resources implementing the spec's instantiation (FIFO links, PerfectFD, LeaderElection = smallest live replica, FileSystem cells) with crashes at every mayFail point (seeded crash oracle incl. a mid-replication focus, at least one survivor); after every committed step ConsistencyOK is evaluated as written (Go monitor; TLC evaluates it on spec-exact traces together with Next membership); client histories with unique Put values and logical time are checked with porcupine, classified against the at-least-once register when a Put was retransmitted.",
+      "Fail-over is exercised in simulation only: the shipped Go LeaderElection resource is a stub that always answers 1. Sim runs exercise generated Go + distsys core, not production resources.",
+      "runtime monitoring: invariant monitor at commit boundaries of a serialised schedule + porcupine on client histories + offline TLC evaluation of recorded traces", "simsched+tlc+porcupine")
+
+check("C18", "exploration",
+      "Child processes with PGO_TRACE_DIR set run random systems of 2-5 hand-built archetypes over locals, LocalShared, Input/OutputChan, TCP and relaxed mailboxes (+length), with injected and natural aborts and multi-hop relays, plus the shipped dqueue/locksvc wirings; the JSON logs are parsed back and judged against three independent ground truths (section bodies, wrapper resources, H1/H3 hook data): one event per committed/aborted attempt in program order, element-wise equality, replay of local state incl. oldValue hints, own clock component = event index, reader clock dominates the writer's logged clock for every identified read.",
+      "Attempts that end in a hard error or at the Done pseudo-label are neither committed nor aborted and no event is demanded for them. Duplicate TCP deliveries (C06's subject) make positional identification abstain.",
+      "runtime monitoring: offline checker over the recorded trace logs against wrapper-resource ground truth", "direct")
+
+
+check("C17", "fault_enumeration",
+      "A hand-built archetype runs on real MPCalContexts with wrapper resources counting Close per instance; the full product of end cause (Done, Stop, assertion, Error label, resource error, never started) x number of concurrent Stop callers (0,1,2,3,5) x Stop timing (before Run, during a section, during commit, during cleanup, after return; realised with H1 gates, no timers) x instant/gated cleanup x resource mix (locals, IncMap with 0-3 elements, HashMap) is enumerated completely, plus second-Run scenarios, free-running jitter scenarios (a share under -race) and, in thorough, TCP mailbox / failure detector / nested-context mixes. Oracles: every Stop returns, Run returns, a second Run is rejected, no commit point after a Stop returned, Close exactly once per resource and map element, distinct result classes; deadlock is decided structurally (every goroutine parked / wait-for cycle in the dump), never by a deadline.",
+      "The Go runtime's own deadlock detector does not fire in cgo-linked binaries, so the 'all goroutines parked' criterion is evaluated by the harness on a stop-the-world snapshot; a bare stall or watchdog expiry is inconclusive. Exhaustive for the enumerated small-mix product only.",
+      "runtime monitoring: enumerated lifecycle scenarios with gate hooks, Close-counting wrapper resources, structural deadlock criterion, race detector", "direct")
+
 PROPS = [json.loads(l)["id"] for l in open(os.path.join(ROOT, "properties.jsonl"))]
 
 def main():
